@@ -161,3 +161,10 @@ Theorem C10_source_fresh_segments_only : forall ttl t s fuel,
     (forall c, In c (cover s) -> (In c cv1 <-> t < cv_t c + ttl)).
 Proof. exact src_evict_fresh_only. Qed.
 Print Assumptions C10_source_fresh_segments_only.
+
+(* ---- tie C: _stitch_at and the whole of _fill_gap as the code has them ---- *)
+From CG Require Import Proofs.GenEq8.
+Example C10_source_stitch_is_model : _ := @g_cache_stitch_at_eq unit.
+Example C10_source_fill_gap_is_model : _ := @g_cache_fill_gap_eq.
+Print Assumptions C10_source_stitch_is_model.
+Print Assumptions C10_source_fill_gap_is_model.
